@@ -39,12 +39,38 @@ Definition bsym (o : binop) : string :=
 Definition is_sprite_op (o : binop) : bool := match o with Intersects | Within => true | _ => false end.
 
 (* objects whose properties are read by number: the <property> of sound / sprite / cast <id> *)
-Inductive ofam := FSound | FSprite | FCast | FVideo.
-Definition fcode (f : ofam) : Z := match f with FSound => 4 | FSprite => 6 | FCast => 9 | FVideo => 13 end.
-Definition fclass (f : ofam) : lclass := match f with FSound => KSound | FSprite => KSprite | FCast | FVideo => KCast end.
+(* ... and the other one-operand forms of the same opcode family: the <property> of field <e>, the last <chunk> of <e>,
+   the number of <chunk>s in <e>, the name of menu <e>, the number of menuItems of menu <e> *)
+Inductive ofam := FSound | FSprite | FCast | FVideo | FField | FLast | FNumber | FMenuName | FMenuItems.
+Definition fcode (f : ofam) : Z :=
+  match f with FSound => 4 | FSprite => 6 | FCast => 9 | FVideo => 13 | FField => 11 | FLast => 0 | FNumber => 1 | FMenuName | FMenuItems => 2 end.
+Definition fclass (f : ofam) : lclass := match f with FSound => KSound | FSprite => KSprite | _ => KCast end.
 (* the property names, by number (the decompiler's tables, regenerated from /repo on every run) *)
 Definition ftable (f : ofam) : list string :=
-  match f with FSound => SOUND_PROPERTIES | FSprite => SPRITE_PROPERTIES | FCast => CAST_PROPERTIES | FVideo => VIDEO_PROPERTIES end.
+  match f with
+  | FSound => SOUND_PROPERTIES | FSprite => SPRITE_PROPERTIES | FCast | FField => CAST_PROPERTIES | FVideo => VIDEO_PROPERTIES
+  | FLast | FNumber => OPERATION_TYPES | FMenuName | FMenuItems => []
+  end.
+(* which property numbers a form takes *)
+Definition fpid_ok (f : ofam) (pid : nat) : Prop :=
+  match f with
+  | FLast => (12 <= pid < 11 + List.length OPERATION_TYPES)%nat
+  | FMenuName => pid = 1%nat
+  | FMenuItems => pid = 2%nat
+  | _ => (pid < List.length (ftable f))%nat
+  end.
+(* the tree of the form: po = address of the opcode, o = the tree of the operand *)
+Definition obj_node (f : ofam) (pid : nat) (po : Z) (o : node) : node :=
+  match f with
+  | FSound | FSprite | FCast | FVideo => Accessor po (ObjRef (fclass f) (name_of o) po o) (nth pid (ftable f) "")
+  | FField => Accessor po (Unary "field" po o) (nth pid CAST_PROPERTIES "")
+  | FLast => UStrOp "last" po (Some (nth (pid - 11) OPERATION_TYPES "")) o
+  | FNumber => UStrOp "number" po (Some (nth pid OPERATION_TYPES "")) o
+  | FMenuName => UStrOp "name" po None (ObjRef KMenu (name_of o) po o)
+  | FMenuItems => UStrOp "number" po None (MenuItemsAcc po (ObjRef KMenu (name_of o) po o))
+  end.
+(* the forms that can be assigned to with the 5D opcodes *)
+Definition assignable (f : ofam) : bool := match f with FSound | FSprite | FCast | FVideo => true | _ => false end.
 
 Inductive expr :=
 | EInt (n : Z)                      (* inline integer: zero, one-byte or two-byte form *)
@@ -157,8 +183,7 @@ Fixpoint reify_e (en : env) (pc : Z) (e : expr) {struct e} : node :=
     ToDict (pa + arglist_len (List.length items)) (LoadList "<load_list>" pa (rev ns))
   | EObj f pid x =>
     let po := pc + zlen (compile_e x) + zlen (compile_int (Z.of_nat pid)) in
-    let o := reify_e en pc x in
-    Accessor po (ObjRef (fclass f) (name_of o) po o) (nth pid (ftable f) "")
+    obj_node f pid po (reify_e en pc x)
   | EMenu pid it mn =>
     let pm := pc + zlen (compile_e it) in
     let po := pm + zlen (compile_e mn) + zlen (compile_int (Z.of_nat pid)) in
@@ -214,7 +239,7 @@ Fixpoint wf_e (en : env) (e : expr) {struct e} : Prop :=
                     (fix all (l : list expr) : Prop := match l with [] => True | x :: r => wf_e en x /\ all r end) items
   | EPList items => Z.of_nat (List.length items) < 65536 /\ Nat.even (List.length items) = true /\
                     (fix all (l : list expr) : Prop := match l with [] => True | x :: r => wf_e en x /\ all r end) items
-  | EObj f pid x => (pid < List.length (ftable f))%nat /\ wf_e en x
+  | EObj f pid x => fpid_ok f pid /\ wf_e en x
   | EMenu pid it mn => (pid < List.length MENUITEM_PROPERTIES)%nat /\ wf_e en it /\ wf_e en mn
   end.
 Fixpoint wf_args (en : env) (l : list expr) : Prop := match l with [] => True | x :: r => wf_e en x /\ wf_args en r end.
@@ -301,7 +326,7 @@ Definition wf_s (en : env) (s : stmt) : Prop :=
   | SSet t e => wf_target en t /\ wf_e en e
   | SCallS f args => (f < List.length (e_names en))%nat /\ Z.of_nat f < 256 /\ Z.of_nat (List.length args) < 65536 /\ wf_args en args
   | SLCallS f args => (f < List.length (e_lfuncs en))%nat /\ Z.of_nat f < 256 /\ Z.of_nat (List.length args) < 65536 /\ wf_args en args
-  | SSetObj f pid o v => (pid < List.length (ftable f))%nat /\ wf_e en o /\ wf_e en v
+  | SSetObj f pid o v => assignable f = true /\ (pid < List.length (ftable f))%nat /\ wf_e en o /\ wf_e en v
   end.
 
 (* a straight-line handler: its statements, then the handler's exit opcode *)
